@@ -275,3 +275,11 @@ def run(eng: Engine, ck: Check):
     first = init and c.suspension_between(c.entry, init[0]) is None
     ck.ob('R-C05-ATOMIC', iu, iu.node, 'the upload task marks the transfer INITIALIZING as its first step (before any other suspension)',
           bool(first), 'initialize() is not the first suspension of _initialize_upload', construct='initialize first')
+    defs.job_raises_nothing_typed(eng, ck, 'R-C05-BOUND', TM, 'TransferManager._management_job', 'the job is what starts queued uploads')
+    # the ranking reads user.privileged / user.status of the object the user manager hands out: those fields are kept in step with the
+    # server's announcements by these handlers (their pinned effects, shared with C19)
+    from .c19 import handler_effects_rule
+    n_h = handler_effects_rule(eng, ck, 'R-C05-RANK', {'UserManager:AddPrivilegedUser.Response', 'UserManager:GetUserStatus.Response', 'UserManager:PrivilegedUsers.Response',
+                                                       'UserManager:AddUser.Response'})
+    ck.floor('R-C05-RANK.replica', n_h, 3)
+
